@@ -230,7 +230,7 @@ func c09(args []string) {
 			}
 			mode := []string{"exit-after-write", "exit-mid-write", "omit-output", "sigkill-shell"}[k%4]
 			bh := vproto.Behaviours{f.Key: {"fail": mode, "sleep": "120"}}
-			jobs = append(jobs, &job{s: s, exp: exp, f: f, mode: mode, bh: bh, cfg: Cfg{Buf: []int{1, 128}[k%2], Procs: 4}, idx: -1})
+			jobs = append(jobs, &job{s: s, exp: exp, f: f, mode: mode, bh: bh, cfg: Cfg{Buf: []int{1, 128}[k%2], Procs: 4, NoHooks: k%4 < 2}, idx: -1})
 		}
 	}
 	run.Parallel(len(jobs), func(i int) {
